@@ -39,7 +39,7 @@ contract(U + "BlockBase.match",
               "*._name", "*._data_symbols", "*._modules", "*._parent", "*._node", "*._checking_enabled", "*.message"],
     calls={
         "startcls": "proto:stmt_call", "cls": "proto:rule_call",
-        "DynamicImport.add_comments_includes_directives": "proto:add_comments",
+        "DynamicImport.add_comments_includes_directives": "fparser.two.Fortran2003:add_comments_includes_directives",
         "*.restore_reader": "proto:restore_reader",
         "*.get_scope_name": "proto:get_scope_name", "*.get_start_label": "pure:any", "*.get_end_label": "pure:any",
         "end_stmt.item.reader.error": "noraise:none",
@@ -126,7 +126,7 @@ contract(F + "Program.match",
     modifies=["view", "scope_stack", "*.fifo_item", "*.linecount", "*.filo_line", "*.source_lines", "*.isclosed",
               "*._children", "SYMBOL_TABLES._symbol_tables", "SYMBOL_TABLES._current_scope",
               "*._name", "*._data_symbols", "*._modules", "*._parent", "*._node", "*._checking_enabled", "*.message"],
-    calls={"add_comments_includes_directives": "proto:add_comments", "Program_Unit": "proto:rule_call",
+    calls={"add_comments_includes_directives": "fparser.two.Fortran2003:add_comments_includes_directives", "Program_Unit": "proto:rule_call",
            "reader.next": "proto:reader_next", "reader.put_item": "proto:put_item"},
     ensures={
         # C02/C08: a tree is returned only when every item of the input is accounted for by a node of the tree
